@@ -4,6 +4,7 @@ import (
 	"context"
 	"fmt"
 	"sort"
+	"strings"
 	"time"
 
 	cid "github.com/ipfs/go-cid"
@@ -69,6 +70,8 @@ func genC04(tier string, seed uint64) *simkit.Plan {
 			st.Name = names[r.Intn(len(names))]
 			if r.Chance(0.3) {
 				st.Via = "rpc"
+				// the sharding adder sends meta entries through this endpoint
+				st.AsMeta = r.Chance(0.3)
 			}
 			st.Direct = r.Chance(0.3)
 			switch r.Pick(6, 2, 1) {
@@ -408,6 +411,15 @@ func execC04(plan *simkit.Plan, run *simkit.Run) {
 			}
 		case s.Op == "pin":
 			req := api.PinWithOpts(target, opts)
+			asMeta := false
+			if s.AsMeta && s.Via == "rpc" && !s.Path && !from.Defined() {
+				// only where the statement decides the outcome: a meta request for a CID
+				// that is pinned as something else, or with an expiry in the past, is
+				// refused (a meta request that would succeed is sent as a plain one)
+				if (ex != nil && ex.Type != api.MetaType) || (!opts.ExpireAt.IsZero() && opts.ExpireAt.Before(now)) {
+					asMeta = true
+				}
+			}
 			if req.ReplicationFactorMin == 0 {
 				req.ReplicationFactorMin = n0.cfg.ReplicationFactorMin
 			}
@@ -419,6 +431,9 @@ func execC04(plan *simkit.Plan, run *simkit.Run) {
 				exp = expectation{refuse: true, why: "invalid replication factors"}
 			case !opts.ExpireAt.IsZero() && opts.ExpireAt.Before(now):
 				exp = expectation{refuse: true, why: "expiry in the past"}
+			case asMeta && ex != nil:
+				exp = expectation{refuse: true, why: "different pin type (meta over " + ex.Type.String() + ")"}
+				run.Probe("meta_request_over_other_type")
 			case ex != nil && ex.Type != api.DataType:
 				exp = expectation{refuse: true, why: "different pin type"}
 			case ex != nil && ex.Mode == api.PinModeRecursive && req.Mode != api.PinModeRecursive:
@@ -482,7 +497,14 @@ func execC04(plan *simkit.Plan, run *simkit.Run) {
 				// the way the REST API and the IPFS proxy reach the peer: its own
 				// Cluster.Pin RPC endpoint
 				var out api.Pin
-				err = n0.tr.Client.CallContext(ctx, "", "Cluster", "Pin", api.PinWithOpts(target, opts), &out)
+				rq := api.PinWithOpts(target, opts)
+				if s.AsMeta && exp.refuse && strings.HasPrefix(exp.why, "different pin type (meta") || (s.AsMeta && exp.refuse && exp.why == "expiry in the past") {
+					ref := simkit.TestCid(70 + s.Cid)
+					rq.Type, rq.Reference, rq.MaxDepth = api.MetaType, &ref, 0
+					label = "meta " + label
+					run.Probe("meta_requests_through_rpc_endpoint")
+				}
+				err = n0.tr.Client.CallContext(ctx, "", "Cluster", "Pin", rq, &out)
 				ret = &out
 				label = "RPC Cluster.Pin(" + label + ")"
 				run.Probe("pins_through_rpc_endpoint")
